@@ -1,5 +1,1390 @@
+// EX-E / property C16: configuration is saved, duplicated and re-applied
+// losslessly; user settings win over system configuration and environment.
+//
+// Families
+//   options   every single option bit, every pair (thorough: every triple) of
+//             the option bits accepted by ares_init_options() with boundary
+//             values, x system configuration x reinit target
+//   servers   server sets over {IPv4, IPv6, link-local IPv6 + interface} x
+//             {default ports, equal non-default, differing UDP/TCP}, 1..3
+//             servers, through every setter, x channel-wide port options
+//   userwins  every subset of the overridable settings supplied by the
+//             application (through options or through a setter) x system
+//             configurations that set EVERY overridable field to another
+//             value x reinit targets
+//
+// Oracles (per case)
+//   init      effective configuration == reference model (user value where the
+//             application supplied one, else the system value, else default)
+//   fixed     save -> init -> save reproduces the options structure and mask;
+//             the channel initialised from saved options has the same
+//             effective configuration; ares_destroy_options releases all
+//   dup       ares_dup() gives the same effective configuration incl. the
+//             ordered server list with per-protocol ports and interface
+//   csv       ares_get_servers_csv() text fed to ares_set_servers_ports_csv()
+//             of a fresh channel reproduces the list
+//   reinit    after ares_reinit() with another system configuration every
+//             user-supplied setting is unchanged, the others follow the new
+//             system configuration
+//   ledger    nothing stays allocated
 #include "exe.h"
+#include <arpa/inet.h>
+#include <limits.h>
+#include <memory>
+
 namespace exe {
-bool is_c16_family(const std::string &f) { return f == "options" || f == "servers" || f == "userwins"; }
-int  run_c16(Ctx &) { return 3; }
+
+// ------------------------------------------------------------------ servers
+struct Srv {
+  std::string addr;
+  bool        v6 = false;
+  int         udp = 0, tcp = 0; // 0 = channel default
+  std::string iface;
+  unsigned    scope = 0;
+};
+static std::string srv_item(const Srv &s, int cu, int ct)
+{
+  int         u = s.udp ? s.udp : (cu ? cu : 53), t = s.tcp ? s.tcp : (ct ? ct : 53);
+  std::string o;
+  if (u != t) {
+    o = "dns://" + (s.v6 ? "[" + s.addr + (s.iface.empty() ? "" : "%" + s.iface) + "]" : s.addr) + ":" + std::to_string(u) + "?tcpport=" + std::to_string(t);
+    return o;
+  }
+  o = (s.v6 ? "[" + s.addr + "]" : s.addr) + ":" + std::to_string(u);
+  if (!s.iface.empty()) o += "%" + s.iface;
+  return o;
 }
+static std::string srv_key(const Srv &s, int cu, int ct)
+{
+  int u = s.udp ? s.udp : (cu ? cu : 53), t = s.tcp ? s.tcp : (ct ? ct : 53);
+  return s.addr + "|u" + std::to_string(u) + "|t" + std::to_string(t);
+}
+// what c-ares keeps of a list: an entry repeating address and both ports of an earlier one is the same server
+static std::vector<Srv> dedupe(const std::vector<Srv> &l, int cu, int ct)
+{
+  std::vector<Srv>      o;
+  std::set<std::string> seen;
+  for (auto &s : l)
+    if (seen.insert(srv_key(s, cu, ct)).second) o.push_back(s);
+  return o;
+}
+static void expect_servers(std::map<std::string, std::string> &e, std::vector<Srv> l, int cu, int ct, bool primary)
+{
+  l = dedupe(l, cu, ct);
+  if (primary && l.size() > 1) l.resize(1);
+  std::string csv, ports, detail;
+  for (auto &s : l) {
+    csv += (csv.empty() ? "" : ",") + srv_item(s, cu, ct);
+    ports += (ports.empty() ? "" : ",") + srv_key(s, cu, ct);
+    detail += (detail.empty() ? "" : ",") + srv_key(s, cu, ct) + "|" + s.iface + "|" + std::to_string(s.scope);
+  }
+  e["servers"]       = csv;
+  e["server_ports"]  = ports;
+  e["server_detail"] = detail;
+}
+
+// ------------------------------------------------- system configurations
+// Every variant carries its text AND, written by hand next to it, what that text says (the reference never parses).
+struct Part {
+  bool                     has_servers = false, has_domains = false, has_sortlist = false, has_lookups = false;
+  std::vector<Srv>         servers;
+  std::vector<std::string> domains;
+  std::string              sortlist, lookups;
+  long long                ndots = -1, timeout = -1, tries = -1;
+  int                      rotate = 0, usevc = 0;
+  void                     overlay(const Part &p)
+  {
+    if (p.has_servers) {
+      has_servers = true;
+      servers     = p.servers;
+    }
+    if (p.has_domains) {
+      has_domains = true;
+      domains     = p.domains;
+    }
+    if (p.has_sortlist) {
+      has_sortlist = true;
+      sortlist     = p.sortlist;
+    }
+    if (p.has_lookups) {
+      has_lookups = true;
+      lookups     = p.lookups;
+    }
+    if (p.ndots >= 0) ndots = p.ndots;
+    if (p.timeout >= 0) timeout = p.timeout;
+    if (p.tries >= 0) tries = p.tries;
+    if (p.rotate) rotate = 1;
+    if (p.usevc) usevc = 1;
+  }
+};
+struct Sys {
+  const char *name;
+  std::string resolv_text; // "" = no resolv.conf
+  Part        resolv;
+  std::string nsswitch_text;
+  Part        nss;
+  bool        has_resopts = false, has_localdomain = false;
+  std::string resopts, localdomain;
+  Part        env;
+};
+static Srv v4(const char *a)
+{
+  Srv s;
+  s.addr = a;
+  return s;
+}
+static Srv v6(const char *a)
+{
+  Srv s;
+  s.addr = a;
+  s.v6   = true;
+  return s;
+}
+static std::vector<Sys> sys_variants()
+{
+  std::vector<Sys> v;
+  {
+    Sys s;
+    s.name = "none";
+    v.push_back(s);
+  }
+  {
+    Sys s;
+    s.name                = "resolvconf";
+    s.resolv_text         = "nameserver 10.53.0.1\nnameserver 2001:db8:53::1\nsearch sys1.example sys2.example\noptions ndots:4 timeout:7 attempts:6 rotate use-vc\nsortlist 10.53.0.0/16\nlookup bind\n";
+    s.resolv.has_servers  = true;
+    s.resolv.servers      = { v4("10.53.0.1"), v6("2001:db8:53::1") };
+    s.resolv.has_domains  = true;
+    s.resolv.domains      = { "sys1.example", "sys2.example" };
+    s.resolv.ndots        = 4;
+    s.resolv.timeout      = 7000;
+    s.resolv.tries        = 6;
+    s.resolv.rotate       = 1;
+    s.resolv.usevc        = 1;
+    s.resolv.has_sortlist = true;
+    s.resolv.sortlist     = "10.53.0.0/16";
+    s.resolv.has_lookups  = true;
+    s.resolv.lookups      = "b";
+    v.push_back(s);
+  }
+  {
+    Sys s             = v[1];
+    s.name            = "resolvconf+nsswitch+env";
+    s.nsswitch_text   = "hosts: files\n";
+    s.nss.has_lookups = true;
+    s.nss.lookups     = "f";
+    s.has_resopts     = true;
+    s.resopts         = "ndots:5 timeout:8 attempts:9";
+    s.env.ndots       = 5;
+    s.env.timeout     = 8000;
+    s.env.tries       = 9;
+    s.has_localdomain = true;
+    s.localdomain     = "env.example";
+    s.env.has_domains = true;
+    s.env.domains     = { "env.example" };
+    v.push_back(s);
+  }
+  return v;
+}
+// reinit targets: 0 = unchanged, 1 = other values for every field, 2 = everything removed
+static Sys reinit_target(const Sys &cur, int which)
+{
+  if (which == 0) return cur;
+  Sys s;
+  if (which == 2) {
+    s.name = "removed";
+    return s;
+  }
+  s.name                = "changed";
+  s.resolv_text         = "nameserver 10.54.0.1\nsearch re.example\noptions ndots:6 timeout:9 attempts:7\nsortlist 10.54.0.0/16\nlookup file\n";
+  s.resolv.has_servers  = true;
+  s.resolv.servers      = { v4("10.54.0.1") };
+  s.resolv.has_domains  = true;
+  s.resolv.domains      = { "re.example" };
+  s.resolv.ndots        = 6;
+  s.resolv.timeout      = 9000;
+  s.resolv.tries        = 7;
+  s.resolv.has_sortlist = true;
+  s.resolv.sortlist     = "10.54.0.0/16";
+  s.resolv.has_lookups  = true;
+  s.resolv.lookups      = "f";
+  return s;
+}
+
+// --------------------------------------------------------------- user side
+typedef void (*sock_cb_t)(void *, ares_socket_t, int, int);
+static void dummy_sock_state_cb(void *, ares_socket_t, int, int) {}
+
+struct User {
+  bool                options_null = false;
+  int                 mask         = 0;
+  struct ares_options o;
+  // storage the options point into
+  std::vector<struct in_addr> servers;
+  std::vector<std::string>    domains;
+  std::vector<char *>         domptr;
+  std::string                 lookups, resolvconf, hosts;
+  struct apattern            *sortlist = nullptr;
+  // setters called after init
+  bool        set_csv = false, set_sortlist = false;
+  std::string csv, sortlist_str;
+  int         setter = 3;           // 0 ares_set_servers, 1 ares_set_servers_ports, 2 ares_set_servers_csv, 3 ares_set_servers_ports_csv
+  bool        ll_without_iface = false; // a link-local server set through a setter that cannot carry the interface
+  // ---- semantic view: what was validly supplied (reference side)
+  unsigned                 okmask = 0; // option bits expected in the channel's mask
+  bool                     s_flags = false, s_timeout = false, s_tries = false, s_ndots = false, s_servers = false, s_domains = false, s_lookups = false, s_sortlist = false;
+  unsigned                 flags   = 0;
+  std::set<std::string>    timeout_ok; // acceptable effective values
+  std::string              tries, ndots, sortlist_txt, lookups_txt;
+  std::vector<Srv>         srv;
+  std::vector<std::string> dom;
+  int                      rotate = -1; // -1 none, 0 NOROTATE, 1 ROTATE, 2 both bits
+  std::map<std::string, std::string> other; // remaining fields: field -> expected effective text
+  std::string                        desc;
+  User() { memset(&o, 0, sizeof o); }
+  ~User()
+  {
+    if (sortlist) free_sortlist(sortlist);
+  }
+  User(const User &)            = delete;
+  User &operator=(const User &) = delete;
+  void  finish()
+  {
+    domptr.clear();
+    for (auto &d : domains) domptr.push_back((char *)d.c_str());
+    if (mask & ARES_OPT_DOMAINS) {
+      o.domains  = domptr.empty() ? nullptr : domptr.data();
+      o.ndomains = (int)domptr.size();
+    }
+    if (mask & ARES_OPT_SERVERS) {
+      o.servers  = servers.empty() ? nullptr : servers.data();
+      o.nservers = (int)servers.size();
+    }
+    if ((mask & ARES_OPT_LOOKUPS) && !lookups.empty()) o.lookups = (char *)lookups.c_str();
+    if ((mask & ARES_OPT_RESOLVCONF) && !resolvconf.empty()) o.resolvconf_path = (char *)resolvconf.c_str();
+    if ((mask & ARES_OPT_HOSTS_FILE) && !hosts.empty()) o.hosts_path = (char *)hosts.c_str();
+  }
+};
+
+struct OptVariant {
+  int                        bit;
+  const char                *name;
+  std::function<void(User &)> apply;
+};
+static std::string hexs(unsigned v)
+{
+  char b[32];
+  snprintf(b, sizeof b, "0x%x", v);
+  return b;
+}
+static std::vector<OptVariant> option_variants()
+{
+  std::vector<OptVariant> v;
+  auto                    add = [&](int bit, const char *name, std::function<void(User &)> f) {
+    v.push_back({ bit, name, [bit, f](User &u) {
+                   u.mask |= bit;
+                   f(u);
+                 } });
+  };
+  auto flags = [&](const char *name, unsigned fl) {
+    add(ARES_OPT_FLAGS, name, [fl](User &u) {
+      u.o.flags = (int)fl;
+      u.s_flags = true;
+      u.flags   = fl;
+      u.okmask |= ARES_OPT_FLAGS;
+    });
+  };
+  flags("flags=0", 0);
+  flags("flags=USEVC", ARES_FLAG_USEVC);
+  flags("flags=EDNS|DNS0x20", ARES_FLAG_EDNS | ARES_FLAG_DNS0x20);
+  flags("flags=NOSEARCH|NOALIASES", ARES_FLAG_NOSEARCH | ARES_FLAG_NOALIASES);
+  flags("flags=PRIMARY", ARES_FLAG_PRIMARY);
+  flags("flags=STAYOPEN|IGNTC|NORECURSE|NOCHECKRESP", ARES_FLAG_STAYOPEN | ARES_FLAG_IGNTC | ARES_FLAG_NORECURSE | ARES_FLAG_NOCHECKRESP);
+  flags("flags=NO_DFLT_SVR", ARES_FLAG_NO_DFLT_SVR);
+  // ARES_OPT_TIMEOUT (seconds) is converted to ARES_OPT_TIMEOUTMS; values <= 0 mean "not supplied" (code comment: integrations pass -1)
+  auto tsec = [&](const char *name, int sec) {
+    add(ARES_OPT_TIMEOUT, name, [sec](User &u) {
+      u.o.timeout = sec;
+      if (sec <= 0 || (u.mask & ARES_OPT_TIMEOUTMS)) return; // ARES_OPT_TIMEOUTMS takes the field when both bits are given
+      u.s_timeout = true;
+      u.okmask |= ARES_OPT_TIMEOUTMS;
+      unsigned long long ms = (unsigned long long)sec * 1000;
+      u.timeout_ok          = { std::to_string(ms) };
+      if (ms > INT_MAX) u.timeout_ok.insert(std::to_string(INT_MAX)); // not representable in the int of ares_save_options: the largest one is accepted too
+    });
+  };
+  tsec("timeout=1s", 1);
+  tsec("timeout=5s", 5);
+  tsec("timeout=2147483s", 2147483);
+  tsec("timeout=INT_MAXs", INT_MAX);
+  tsec("timeout=0s", 0);
+  auto tms = [&](const char *name, int ms) {
+    add(ARES_OPT_TIMEOUTMS, name, [ms](User &u) {
+      u.o.timeout = ms;
+      // the field is shared with ARES_OPT_TIMEOUT: TIMEOUTMS wins when both are given
+      u.s_timeout = false;
+      u.timeout_ok.clear();
+      u.okmask &= ~(unsigned)ARES_OPT_TIMEOUTMS;
+      if (ms <= 0) return;
+      u.s_timeout  = true;
+      u.timeout_ok = { std::to_string(ms) };
+      u.okmask |= ARES_OPT_TIMEOUTMS;
+    });
+  };
+  tms("timeoutms=1", 1);
+  tms("timeoutms=250", 250);
+  tms("timeoutms=INT_MAX", INT_MAX);
+  tms("timeoutms=0", 0);
+  auto ival = [&](int bit, const char *name, int val, int minvalid, const char *field, int struct_field) {
+    add(bit, name, [=](User &u) {
+      switch (struct_field) {
+        case 0: u.o.tries = val; break;
+        case 1: u.o.ndots = val; break;
+        case 2: u.o.socket_send_buffer_size = val; break;
+        case 3: u.o.socket_receive_buffer_size = val; break;
+        case 4: u.o.ednspsz = val; break;
+        case 5: u.o.udp_max_queries = val; break;
+        case 6: u.o.maxtimeout = val; break;
+      }
+      if (val < minvalid) return;
+      u.okmask |= (unsigned)bit;
+      if (struct_field == 0) {
+        u.s_tries = true;
+        u.tries   = std::to_string(val);
+      } else if (struct_field == 1) {
+        u.s_ndots = true;
+        u.ndots   = std::to_string(val);
+      } else u.other[field] = std::to_string(val);
+    });
+  };
+  ival(ARES_OPT_TRIES, "tries=1", 1, 1, "tries", 0);
+  ival(ARES_OPT_TRIES, "tries=100", 100, 1, "tries", 0);
+  ival(ARES_OPT_TRIES, "tries=0", 0, 1, "tries", 0);
+  ival(ARES_OPT_NDOTS, "ndots=0", 0, 0, "ndots", 1);
+  ival(ARES_OPT_NDOTS, "ndots=15", 15, 0, "ndots", 1);
+  ival(ARES_OPT_NDOTS, "ndots=100", 100, 0, "ndots", 1);
+  ival(ARES_OPT_NDOTS, "ndots=-1", -1, 0, "ndots", 1);
+  auto port = [&](int bit, const char *name, unsigned short p, bool udp) {
+    add(bit, name, [=](User &u) {
+      if (udp) u.o.udp_port = p;
+      else u.o.tcp_port = p;
+      u.okmask |= (unsigned)bit;
+      u.other[udp ? "udp_port" : "tcp_port"] = std::to_string(p);
+    });
+  };
+  port(ARES_OPT_UDP_PORT, "udp_port=1", 1, true);
+  port(ARES_OPT_UDP_PORT, "udp_port=65535", 65535, true);
+  port(ARES_OPT_UDP_PORT, "udp_port=5353", 5353, true);
+  port(ARES_OPT_TCP_PORT, "tcp_port=1", 1, false);
+  port(ARES_OPT_TCP_PORT, "tcp_port=65535", 65535, false);
+  port(ARES_OPT_TCP_PORT, "tcp_port=5354", 5354, false);
+  auto servers = [&](const char *name, int n) {
+    add(ARES_OPT_SERVERS, name, [n](User &u) {
+      for (int i = 0; i < n; i++) {
+        std::string    a = "10.16.0." + std::to_string(i + 1);
+        struct in_addr ia;
+        inet_pton(AF_INET, a.c_str(), &ia);
+        u.servers.push_back(ia);
+        u.srv.push_back(v4(a.c_str()));
+      }
+      if (n > 0) {
+        u.s_servers = true;
+        u.okmask |= ARES_OPT_SERVERS;
+      }
+    });
+  };
+  servers("servers=0", 0);
+  servers("servers=1", 1);
+  servers("servers=2", 2);
+  servers("servers=3", 3);
+  auto domains = [&](const char *name, std::vector<std::string> d) {
+    add(ARES_OPT_DOMAINS, name, [d](User &u) {
+      u.domains   = d;
+      u.dom       = d;
+      u.s_domains = true; // an empty list is an explicit "no search domains" ("instead of resolv.conf or the hostname")
+      u.okmask |= ARES_OPT_DOMAINS;
+    });
+  };
+  domains("domains=0", {});
+  domains("domains=1", { "user1.example" });
+  domains("domains=2(empty string first)", { "", "user2.example" });
+  auto lookups = [&](const char *name, const char *l) {
+    add(ARES_OPT_LOOKUPS, name, [l](User &u) {
+      if (!l) return; // NULL = not supplied
+      u.lookups     = l;
+      u.s_lookups   = true;
+      u.lookups_txt = l;
+      u.okmask |= ARES_OPT_LOOKUPS;
+    });
+  };
+  lookups("lookups=b", "b");
+  lookups("lookups=f", "f");
+  lookups("lookups=bf", "bf");
+  lookups("lookups=fb", "fb");
+  lookups("lookups=NULL", nullptr);
+  add(ARES_OPT_SOCK_STATE_CB, "sock_state_cb", [](User &u) {
+    u.o.sock_state_cb      = dummy_sock_state_cb;
+    u.o.sock_state_cb_data = (void *)0x5151;
+    u.okmask |= ARES_OPT_SOCK_STATE_CB;
+    u.other["sock_state_cb"] = "set/0x5151";
+  });
+  auto sortl = [&](const char *name, const char *str, const char *canon) {
+    add(ARES_OPT_SORTLIST, name, [str, canon](User &u) {
+      int n = 0;
+      if (*str) u.sortlist = make_sortlist(str, &n);
+      u.o.sortlist   = u.sortlist;
+      u.o.nsort      = n;
+      u.s_sortlist   = true; // zero entries is an explicit empty sortlist
+      u.sortlist_txt = canon;
+      u.okmask |= ARES_OPT_SORTLIST;
+    });
+  };
+  sortl("sortlist=0", "", "");
+  sortl("sortlist=1", "10.16.0.0/16", "10.16.0.0/16");
+  sortl("sortlist=2", "10.16.0.0/255.255.0.0 2001:db8::/32", "10.16.0.0/16 2001:db8::/32");
+  ival(ARES_OPT_SOCK_SNDBUF, "sndbuf=1", 1, 1, "sndbuf", 2);
+  ival(ARES_OPT_SOCK_SNDBUF, "sndbuf=INT_MAX", INT_MAX, 1, "sndbuf", 2);
+  ival(ARES_OPT_SOCK_SNDBUF, "sndbuf=0", 0, 1, "sndbuf", 2);
+  ival(ARES_OPT_SOCK_RCVBUF, "rcvbuf=1", 1, 1, "rcvbuf", 3);
+  ival(ARES_OPT_SOCK_RCVBUF, "rcvbuf=INT_MAX", INT_MAX, 1, "rcvbuf", 3);
+  ival(ARES_OPT_SOCK_RCVBUF, "rcvbuf=0", 0, 1, "rcvbuf", 3);
+  add(ARES_OPT_ROTATE, "rotate", [](User &u) {
+    u.rotate = u.rotate == 0 ? 2 : 1;
+    u.okmask |= ARES_OPT_ROTATE;
+  });
+  add(ARES_OPT_NOROTATE, "norotate", [](User &u) {
+    u.rotate = u.rotate == 1 ? 2 : 0;
+    u.okmask |= ARES_OPT_NOROTATE;
+  });
+  ival(ARES_OPT_EDNSPSZ, "ednspsz=512", 512, 1, "ednspsz", 4);
+  ival(ARES_OPT_EDNSPSZ, "ednspsz=65535", 65535, 1, "ednspsz", 4);
+  ival(ARES_OPT_EDNSPSZ, "ednspsz=0", 0, 1, "ednspsz", 4);
+  auto rpath = [&](const char *name, const char *path) {
+    add(ARES_OPT_RESOLVCONF, name, [path](User &u) {
+      if (!path) return;
+      u.resolvconf = path;
+      u.okmask |= ARES_OPT_RESOLVCONF;
+      u.other["resolvconf_path"] = path;
+    });
+  };
+  rpath("resolvconf=/vfs/alt-resolv.conf", "/vfs/alt-resolv.conf");
+  rpath("resolvconf=/vfs/missing", "/vfs/missing");
+  rpath("resolvconf=NULL", nullptr);
+  auto hpath = [&](const char *name, const char *path) {
+    add(ARES_OPT_HOSTS_FILE, name, [path](User &u) {
+      if (!path) return;
+      u.hosts = path;
+      u.okmask |= ARES_OPT_HOSTS_FILE;
+      u.other["hosts_path"] = path;
+    });
+  };
+  hpath("hosts=/vfs/hosts", "/vfs/hosts");
+  hpath("hosts=NULL", nullptr);
+  ival(ARES_OPT_UDP_MAX_QUERIES, "udp_max_queries=1", 1, 1, "udp_max_queries", 5);
+  ival(ARES_OPT_UDP_MAX_QUERIES, "udp_max_queries=1000", 1000, 1, "udp_max_queries", 5);
+  ival(ARES_OPT_UDP_MAX_QUERIES, "udp_max_queries=0", 0, 1, "udp_max_queries", 5);
+  ival(ARES_OPT_MAXTIMEOUTMS, "maxtimeout=1", 1, 1, "maxtimeout", 6);
+  ival(ARES_OPT_MAXTIMEOUTMS, "maxtimeout=INT_MAX", INT_MAX, 1, "maxtimeout", 6);
+  ival(ARES_OPT_MAXTIMEOUTMS, "maxtimeout=0", 0, 1, "maxtimeout", 6);
+  auto qc = [&](const char *name, unsigned ttl) {
+    add(ARES_OPT_QUERY_CACHE, name, [ttl](User &u) {
+      u.o.qcache_max_ttl        = ttl;
+      u.other["qcache_max_ttl"] = std::to_string(ttl);
+    });
+  };
+  qc("qcache=0", 0);
+  qc("qcache=1", 1);
+  qc("qcache=UINT_MAX", 0xffffffffu);
+  auto fo = [&](const char *name, unsigned short chance, size_t delay) {
+    add(ARES_OPT_SERVER_FAILOVER, name, [chance, delay](User &u) {
+      u.o.server_failover_opts.retry_chance = chance;
+      u.o.server_failover_opts.retry_delay  = delay;
+      u.okmask |= ARES_OPT_SERVER_FAILOVER;
+      u.other["retry_chance"] = std::to_string(chance);
+      u.other["retry_delay"]  = std::to_string(delay);
+    });
+  };
+  fo("failover=0/0", 0, 0);
+  fo("failover=1/1", 1, 1);
+  fo("failover=65535/big", 65535, (size_t)1 << 40);
+  return v;
+}
+
+// ---------------------------------------------------------- reference model
+struct Expect {
+  std::map<std::string, std::string>           f;    // field -> expected text
+  std::map<std::string, std::set<std::string>> alt;  // field -> acceptable texts (overrides f)
+  std::set<std::string>                        skip; // not asserted
+  bool                                         enoserver = false;
+  std::map<std::string, std::string>           who;  // field -> "user" | "system" | "default"
+};
+
+static Part effective_sys(const Sys &s, const User &u)
+{
+  Part p;
+  bool readable = !s.resolv_text.empty();
+  if (!u.resolvconf.empty() && u.resolvconf == "/vfs/missing") readable = false;
+  if (readable) p.overlay(s.resolv);
+  p.overlay(s.nss); // nsswitch.conf is read after resolv.conf
+  p.overlay(s.env); // the environment overrides the files
+  return p;
+}
+
+// phase 0: after ares_init_options; phase 1: after ares_reinit with the system configuration `s` (prev = configuration at init)
+static Expect model(const User &u, const Sys &s, int phase, const Sys *prev)
+{
+  Expect e;
+  Part   p = effective_sys(s, u);
+  auto   put = [&](const char *k, const std::string &v, const char *who) {
+    e.f[k]   = v;
+    e.who[k] = who;
+  };
+  unsigned fl = u.s_flags ? u.flags : (unsigned)(ARES_FLAG_EDNS | (p.usevc ? ARES_FLAG_USEVC : 0));
+  put("flags", hexs(fl), u.s_flags ? "user" : "system");
+  // fields a system configuration may leave unsaid: after a reinit the documentation does not say whether the earlier
+  // system value stays or the default returns, so they are not asserted then
+  auto sysfield = [&](const char *k, bool user, const std::string &uval, bool sys_has, const std::string &sval, const std::string &dflt) {
+    if (user) put(k, uval, "user");
+    else if (sys_has) put(k, sval, "system");
+    else if (phase == 0) put(k, dflt, "default");
+    else e.skip.insert(k);
+  };
+  if (u.s_timeout) {
+    e.alt["timeout"] = u.timeout_ok;
+    e.who["timeout"] = "user";
+  } else sysfield("timeout", false, "", p.timeout >= 0, std::to_string(p.timeout), "2000");
+  sysfield("tries", u.s_tries, u.tries, p.tries >= 0, std::to_string(p.tries), "3");
+  put("ndots", u.s_ndots ? u.ndots : std::to_string(p.ndots >= 0 ? p.ndots : 1), u.s_ndots ? "user" : "system");
+  if (u.rotate == 2) e.skip.insert("rotate"); // both ARES_OPT_ROTATE and ARES_OPT_NOROTATE: not documented
+  else put("rotate", std::to_string(u.rotate >= 0 ? u.rotate : p.rotate), u.rotate >= 0 ? "user" : "system");
+  std::string dj, sj;
+  for (size_t i = 0; i < u.dom.size(); i++) dj += (i ? "," : "") + u.dom[i];
+  for (size_t i = 0; i < p.domains.size(); i++) sj += (i ? "," : "") + p.domains[i];
+  sysfield("domains", u.s_domains, "[" + dj + "]", p.has_domains, "[" + sj + "]", "[hostdom.example]");
+  sysfield("lookups", u.s_lookups, u.lookups_txt, p.has_lookups, p.lookups, "fb");
+  sysfield("sortlist", u.s_sortlist, "[" + u.sortlist_txt + "]", p.has_sortlist, "[" + p.sortlist + "]", "[]");
+  int cu = u.other.count("udp_port") ? atoi(u.other.at("udp_port").c_str()) : 0;
+  int ct = u.other.count("tcp_port") ? atoi(u.other.at("tcp_port").c_str()) : 0;
+  bool primary = fl & ARES_FLAG_PRIMARY;
+  if (u.s_servers) {
+    expect_servers(e.f, u.srv, cu, ct, primary);
+    e.who["servers"] = "user";
+  } else if (p.has_servers) {
+    expect_servers(e.f, p.servers, cu, ct, primary);
+    e.who["servers"] = "system";
+  } else if (phase == 0) {
+    if (fl & ARES_FLAG_NO_DFLT_SVR) e.enoserver = true;
+    expect_servers(e.f, { v4("127.0.0.1") }, cu, ct, primary);
+    e.who["servers"] = "default";
+  } else {
+    e.skip.insert("servers");
+    e.skip.insert("server_ports");
+    e.skip.insert("server_detail");
+  }
+  e.who["server_ports"] = e.who["server_detail"] = e.who["servers"];
+  static const char *dflt[][2] = { { "udp_port", "0" },        { "tcp_port", "0" },        { "maxtimeout", "0" },   { "sndbuf", "0" },       { "rcvbuf", "0" },
+                                   { "ednspsz", "1232" },      { "qcache_max_ttl", "3600" }, { "udp_max_queries", "0" }, { "retry_chance", "10" }, { "retry_delay", "5000" },
+                                   { "resolvconf_path", "(default)" }, { "hosts_path", "(default)" }, { "sock_state_cb", "unset/(nil)" }, { "evsys", "0" } };
+  for (auto &d : dflt) {
+    auto it = u.other.find(d[0]);
+    put(d[0], it != u.other.end() ? it->second : d[1], it != u.other.end() ? "user" : "default");
+  }
+  unsigned m = u.okmask | ARES_OPT_QUERY_CACHE;
+  if (u.set_csv) m |= ARES_OPT_SERVERS;
+  if (u.set_sortlist) m |= ARES_OPT_SORTLIST;
+  put("optmask", hexs(m), "user");
+  (void)prev;
+  return e;
+}
+
+static std::vector<std::pair<std::string, std::string>> compare(const Expect &e, const Cfg &c)
+{
+  std::vector<std::pair<std::string, std::string>> out; // (field, message)
+  for (auto &kv : e.f) {
+    if (e.skip.count(kv.first) || e.alt.count(kv.first)) continue;
+    std::string got = c.get(kv.first);
+    if (got != kv.second) out.push_back({ kv.first, kv.first + ": expected " + kv.second + ", effective " + got });
+  }
+  for (auto &kv : e.alt) {
+    std::string got = c.get(kv.first);
+    if (!kv.second.count(got)) {
+      std::string w;
+      for (auto &x : kv.second) w += (w.empty() ? "" : " or ") + x;
+      out.push_back({ kv.first, kv.first + ": expected " + w + ", effective " + got });
+    }
+  }
+  return out;
+}
+
+// ------------------------------------------------------------ environment
+static Env make_env(const Sys &s, const User &u)
+{
+  Env e;
+  if (!s.resolv_text.empty()) {
+    if (!u.resolvconf.empty()) {
+      if (u.resolvconf != "/vfs/missing") e.files[u.resolvconf] = s.resolv_text;
+      // a decoy at the default location: reading it would apply values no reference contains
+      e.files["/etc/resolv.conf"] = "nameserver 10.66.6.6\noptions ndots:9 timeout:29 attempts:19\nsearch decoy.example\nsortlist 10.66.0.0/16\n";
+    } else e.files["/etc/resolv.conf"] = s.resolv_text;
+  }
+  if (!s.nsswitch_text.empty()) e.files["/etc/nsswitch.conf"] = s.nsswitch_text;
+  e.has_resopts     = s.has_resopts;
+  e.resopts         = s.resopts;
+  e.has_localdomain = s.has_localdomain;
+  e.localdomain     = s.localdomain;
+  e.files["/vfs/hosts"] = "10.1.1.1 alpha\n";
+  return e;
+}
+
+// canonical text of an options structure restricted to its mask
+static std::string opts_text(const struct ares_options &o, int mask)
+{
+  std::string s = "mask=" + hexs((unsigned)mask);
+  auto        n = [&](const char *k, long long v) { s += std::string(" ") + k + "=" + std::to_string(v); };
+  if (mask & ARES_OPT_FLAGS) n("flags", o.flags);
+  if (mask & (ARES_OPT_TIMEOUTMS | ARES_OPT_TIMEOUT)) n("timeout", o.timeout);
+  if (mask & ARES_OPT_TRIES) n("tries", o.tries);
+  if (mask & ARES_OPT_NDOTS) n("ndots", o.ndots);
+  if (mask & ARES_OPT_MAXTIMEOUTMS) n("maxtimeout", o.maxtimeout);
+  if (mask & ARES_OPT_UDP_PORT) n("udp_port", o.udp_port);
+  if (mask & ARES_OPT_TCP_PORT) n("tcp_port", o.tcp_port);
+  if (mask & ARES_OPT_SOCK_STATE_CB) {
+    char b[64];
+    snprintf(b, sizeof b, " cb=%s/%p", o.sock_state_cb ? "set" : "unset", o.sock_state_cb_data);
+    s += b;
+  }
+  if (mask & ARES_OPT_SERVERS) {
+    s += " servers=";
+    for (int i = 0; i < o.nservers && o.servers; i++) {
+      char b[32];
+      inet_ntop(AF_INET, &o.servers[i], b, sizeof b);
+      s += std::string(b) + ",";
+    }
+    n("nservers", o.nservers);
+  }
+  if (mask & ARES_OPT_DOMAINS) {
+    s += " domains=";
+    for (int i = 0; i < o.ndomains && o.domains; i++) s += std::string(o.domains[i] ? o.domains[i] : "(null)") + ",";
+    n("ndomains", o.ndomains);
+  }
+  if (mask & ARES_OPT_LOOKUPS) s += std::string(" lookups=") + (o.lookups ? o.lookups : "(null)");
+  if (mask & ARES_OPT_SORTLIST) {
+    s += " sortlist=" + (o.sortlist ? sortlist_text(o.sortlist, o.nsort) : std::string());
+    n("nsort", o.nsort);
+  }
+  if (mask & ARES_OPT_SOCK_SNDBUF) n("sndbuf", o.socket_send_buffer_size);
+  if (mask & ARES_OPT_SOCK_RCVBUF) n("rcvbuf", o.socket_receive_buffer_size);
+  if (mask & ARES_OPT_EDNSPSZ) n("ednspsz", o.ednspsz);
+  if (mask & ARES_OPT_RESOLVCONF) s += std::string(" resolvconf=") + (o.resolvconf_path ? o.resolvconf_path : "(null)");
+  if (mask & ARES_OPT_HOSTS_FILE) s += std::string(" hosts=") + (o.hosts_path ? o.hosts_path : "(null)");
+  if (mask & ARES_OPT_UDP_MAX_QUERIES) n("udp_max_queries", o.udp_max_queries);
+  if (mask & ARES_OPT_QUERY_CACHE) n("qcache_max_ttl", o.qcache_max_ttl);
+  if (mask & ARES_OPT_EVENT_THREAD) n("evsys", (long long)o.evsys);
+  if (mask & ARES_OPT_SERVER_FAILOVER) {
+    n("retry_chance", o.server_failover_opts.retry_chance);
+    n("retry_delay", (long long)o.server_failover_opts.retry_delay);
+  }
+  return s;
+}
+
+// ------------------------------------------------------------- one scenario
+struct Finding {
+  std::string key, desc;
+};
+struct Scenario {
+  std::function<void(User &)> build; // fills the user side
+  int                         sys = 0, re = 0;
+  bool                        servers_expressible = true; // save->init->save can carry the server list (IPv4, channel-wide ports)
+  std::string                 text;                       // human readable
+};
+
+static std::string first_field(const std::string &diff)
+{
+  size_t p = diff.find(':');
+  return p == std::string::npos ? diff : diff.substr(0, p);
+}
+
+static std::vector<Finding> run_scenario(const Scenario &sc, Ctx &cx, const std::string &fam, std::string *outcome, bool verbose)
+{
+  std::vector<Finding> fs;
+  static std::vector<Sys> sysv = sys_variants();
+  const Sys              &S    = sysv[(size_t)sc.sys];
+  User                    u;
+  sc.build(u);
+  u.finish();
+  auto note = [&](const std::string &k, const std::string &d) {
+    for (auto &f : fs)
+      if (f.key == k) return;
+    fs.push_back({ k, d });
+  };
+  size_t base = ledger_live();
+  env_apply(make_env(S, u));
+  ares_channel_t *ch = nullptr;
+  int             rc = ares_init_options(&ch, u.options_null ? nullptr : &u.o, u.mask);
+  cx.rep.executions++;
+  Expect e0 = model(u, S, 0, nullptr);
+  *outcome  = "rc=" + std::to_string(rc);
+  if (e0.enoserver) {
+    cx.rep.witness("init_error");
+    if (rc != ARES_ENOSERVER) note("C16:init:" + fam + ":status", "ARES_FLAG_NO_DFLT_SVR without any server: expected ARES_ENOSERVER, got " + std::to_string(rc));
+    if (rc == ARES_SUCCESS) ares_destroy(ch);
+    if (ledger_live() != base) {
+      note("C16:ledger:" + fam + ":init-error", "allocations left after a failed ares_init_options");
+      ledger_forget();
+    }
+    return fs;
+  }
+  if (rc != ARES_SUCCESS) {
+    note("C16:init:" + fam + ":status", "ares_init_options failed with " + std::to_string(rc));
+    if (ledger_live() != base) ledger_forget();
+    return fs;
+  }
+  install_sockfuncs(ch);
+  if (u.set_csv) {
+    int r;
+    if (u.setter == 3) r = ares_set_servers_ports_csv(ch, u.csv.c_str());
+    else if (u.setter == 2) r = ares_set_servers_csv(ch, u.csv.c_str());
+    else {
+      std::vector<struct ares_addr_node>      an(u.srv.size());
+      std::vector<struct ares_addr_port_node> pn(u.srv.size());
+      for (size_t i = 0; i < u.srv.size(); i++) {
+        memset(&an[i], 0, sizeof an[i]);
+        memset(&pn[i], 0, sizeof pn[i]);
+        an[i].family = pn[i].family = u.srv[i].v6 ? AF_INET6 : AF_INET;
+        inet_pton(an[i].family, u.srv[i].addr.c_str(), &an[i].addr);
+        inet_pton(pn[i].family, u.srv[i].addr.c_str(), &pn[i].addr);
+        pn[i].udp_port = u.srv[i].udp;
+        pn[i].tcp_port = u.srv[i].tcp;
+        an[i].next     = i + 1 < u.srv.size() ? &an[i + 1] : nullptr;
+        pn[i].next     = i + 1 < u.srv.size() ? &pn[i + 1] : nullptr;
+      }
+      r = u.setter == 0 ? ares_set_servers(ch, an.data()) : ares_set_servers_ports(ch, pn.data());
+    }
+    if (r != ARES_SUCCESS) note("C16:setter:" + fam + ":servers", "server setter " + std::to_string(u.setter) + " (\"" + u.csv + "\") failed with " + std::to_string(r));
+  }
+  if (u.set_sortlist) {
+    int r = ares_set_sortlist(ch, u.sortlist_str.c_str());
+    if (r != ARES_SUCCESS) note("C16:setter:" + fam + ":sortlist", "ares_set_sortlist failed with " + std::to_string(r));
+  }
+  Cfg c1 = peek_cfg(ch);
+  cx.state(c1.str());
+  if (verbose) printf("--- effective configuration after init\n%s", c1.str().c_str());
+  // ---- (d) at init
+  for (auto &m : compare(e0, c1)) {
+    std::string who = e0.who.count(m.first) ? e0.who[m.first] : "?";
+    note("C16:init:" + fam + ":" + m.first + ":" + who, "after ares_init_options: " + m.second + " (value expected from: " + who + ")");
+  }
+  for (auto &kv : e0.who)
+    if (!e0.skip.count(kv.first)) cx.rep.witness(kv.second == "user" ? "user_setting_preserved" : kv.second == "system" ? "system_value_applied" : "default_applied");
+  if (c1.get("server_detail").find("|eth0|2") != std::string::npos) cx.rep.witness("server_v6_linklocal");
+
+  // ---- (a) save -> init -> save
+  {
+    struct ares_options o2, o3;
+    int                 m2 = 0x5a5a5a5a, m3 = 0x5a5a5a5a;
+    memset(&o2, 0x5a, sizeof o2);
+    memset(&o3, 0x5a, sizeof o3);
+    int r2 = ares_save_options(ch, &o2, &m2);
+    if (r2 != ARES_SUCCESS) {
+      note("C16:fixed:" + fam + ":save-status", "ares_save_options failed with " + std::to_string(r2));
+      ares_destroy_options(&o2);
+    } else {
+      std::string     t2  = opts_text(o2, m2);
+      ares_channel_t *ch2 = nullptr;
+      int             ri  = ares_init_options(&ch2, &o2, m2);
+      cx.rep.executions++;
+      if (ri != ARES_SUCCESS) note("C16:fixed:" + fam + ":init-status", "ares_init_options(saved options) failed with " + std::to_string(ri) + "; saved: " + t2);
+      else {
+        int r3 = ares_save_options(ch2, &o3, &m3);
+        if (r3 != ARES_SUCCESS) note("C16:fixed:" + fam + ":save-status", "second ares_save_options failed with " + std::to_string(r3));
+        else {
+          std::string t3 = opts_text(o3, m3);
+          std::string a2 = t2, a3 = t3;
+          if (!sc.servers_expressible) {
+            // IPv6 / per-server ports / link-local interface cannot be written into struct ares_options (ares_save_options.3):
+            // the server part of the structure is left out of the comparison
+            a2 = opts_text(o2, m2 & ~ARES_OPT_SERVERS);
+            a3 = opts_text(o3, m3 & ~ARES_OPT_SERVERS);
+            a2 = a2.substr(a2.find(' ') == std::string::npos ? a2.size() : a2.find(' '));
+            a3 = a3.substr(a3.find(' ') == std::string::npos ? a3.size() : a3.find(' '));
+            if (((m2 ^ m3) & ~ARES_OPT_SERVERS) != 0) a2 = "mask " + a2;
+          }
+          if (a2 != a3) {
+            // name the first differing token
+            size_t i = 0;
+            while (i < t2.size() && i < t3.size() && t2[i] == t3[i]) i++;
+            size_t      b   = t2.rfind(' ', i);
+            std::string tok = t2.substr(b == std::string::npos ? 0 : b + 1, t2.find('=', b == std::string::npos ? 0 : b + 1) - (b == std::string::npos ? 0 : b + 1));
+            note("C16:fixed:" + fam + ":options:" + tok, "save -> init -> save is not a fixed point of the options structure: first " + t2 + " then " + t3);
+          }
+          ares_destroy_options(&o3);
+        }
+        Cfg                   c2 = peek_cfg(ch2);
+        std::set<std::string> ign;
+        if (!sc.servers_expressible) ign = { "servers", "server_ports", "server_detail", "optmask" };
+        std::string d = diff_cfg(c1, c2, ign);
+        if (!sc.servers_expressible && ((strtoul(c1.get("optmask").c_str(), nullptr, 16) ^ strtoul(c2.get("optmask").c_str(), nullptr, 16)) & ~(unsigned long)ARES_OPT_SERVERS))
+          d = "optmask: " + c1.get("optmask") + " vs " + c2.get("optmask");
+        if (!d.empty()) note("C16:fixed:" + fam + ":effective:" + first_field(d), "channel initialised from saved options differs (original vs copy): " + d + "; saved: " + t2);
+        cx.rep.witness("fixedpoint_checked");
+        if (!sc.servers_expressible) cx.rep.count("fixed:servers_not_expressible_in_options");
+        ares_destroy(ch2);
+      }
+      size_t before = ledger_live();
+      ares_destroy_options(&o2);
+      (void)before;
+    }
+  }
+  // ---- (b) dup
+  {
+    ares_channel_t *ch3 = nullptr;
+    int             rd  = ares_dup(&ch3, ch);
+    cx.rep.executions++;
+    if (rd != ARES_SUCCESS) note("C16:dup:" + fam + ":status", "ares_dup failed with " + std::to_string(rd));
+    else {
+      Cfg                   c3 = peek_cfg(ch3);
+      std::set<std::string> ign;
+      if (u.ll_without_iface) { // the csv text cannot name a link-local server without its interface (documented): not asserted
+        ign = { "servers", "server_ports", "server_detail" };
+        cx.rep.count("linklocal_without_interface_not_carried_by_dup");
+      }
+      std::string d = diff_cfg(c1, c3, ign);
+      if (!d.empty()) note("C16:dup:" + fam + ":" + first_field(d), "ares_dup(): original vs copy: " + d);
+      cx.rep.witness("dup_checked");
+      ares_destroy(ch3);
+    }
+  }
+  // ---- (c) csv -> set -> csv on a fresh channel with the same options
+  {
+    ares_channel_t *ch4 = nullptr;
+    int             ri  = ares_init_options(&ch4, u.options_null ? nullptr : &u.o, u.mask);
+    cx.rep.executions++;
+    if (ri == ARES_SUCCESS) {
+      install_sockfuncs(ch4);
+      std::string csv = c1.get("servers");
+      int         rs  = ares_set_servers_ports_csv(ch4, csv.c_str());
+      Cfg         c4  = peek_cfg(ch4);
+      if (u.ll_without_iface) cx.rep.count("linklocal_without_interface_not_carried_by_csv");
+      else if (rs != ARES_SUCCESS) note("C16:csv:" + fam + ":status", "ares_set_servers_ports_csv(\"" + csv + "\") failed with " + std::to_string(rs));
+      else
+        for (const char *k : { "servers", "server_ports", "server_detail" })
+          if (c4.get(k) != c1.get(k)) {
+            note("C16:csv:" + fam + ":" + k, std::string("csv -> set -> csv: ") + k + " " + c1.get(k) + " became " + c4.get(k) + " (csv text \"" + csv + "\")");
+            break;
+          }
+      cx.rep.witness("csv_roundtrip");
+      ares_destroy(ch4);
+    }
+  }
+  // ---- (d) at reinit
+  {
+    Sys S2 = reinit_target(S, sc.re);
+    env_apply(make_env(S2, u));
+    int rr = ares_reinit(ch);
+    cx.rep.executions++;
+    if (rr != ARES_SUCCESS) note("C16:reinit:" + fam + ":status", "ares_reinit failed with " + std::to_string(rr));
+    Cfg    c5 = peek_cfg(ch);
+    Expect e1 = model(u, S2, 1, &S);
+    if (verbose) printf("--- effective configuration after reinit (%s)\n%s", S2.name, c5.str().c_str());
+    cx.state(c5.str());
+    for (auto &m : compare(e1, c5)) {
+      std::string who = e1.who.count(m.first) ? e1.who[m.first] : "?";
+      note("C16:reinit:" + fam + ":" + m.first + ":" + who, std::string("after ares_reinit (system configuration ") + S2.name + "): " + m.second + " (value expected from: " + who + "; before reinit " + c1.get(m.first) + ")");
+    }
+    for (auto &k : e1.skip)
+      if (k != "server_ports" && k != "server_detail") cx.rep.count(("reinit_field_not_in_new_config:" + k + (c5.get(k) == c1.get(k) ? ":kept" : ":changed")).c_str());
+    cx.rep.witness("reinit_checked");
+    *outcome += " re=" + std::string(S2.name);
+  }
+  ares_destroy(ch);
+  if (ledger_live() != base) {
+    ledger_forget();
+    note("C16:ledger:" + fam, "allocations left after destroying all channels and options of the scenario");
+  }
+  return fs;
+}
+
+// ------------------------------------------------------------ family tables
+struct Space {
+  std::string                                        fam, bound;
+  unsigned long long                                 total = 0;
+  std::function<Scenario(unsigned long long)>        get;
+  std::function<std::string(unsigned long long)>     json; // explicit replay encoding
+  // explicit form of a case (used to shrink a failing scenario): parts -> scenario / replay text, and the one-step reductions of parts
+  std::function<std::vector<int>(unsigned long long)>                      parts;
+  std::function<Scenario(const std::vector<int> &)>                        from_parts;
+  std::function<std::string(const std::vector<int> &)>                     parts_json;
+  std::function<std::vector<std::vector<int>>(const std::vector<int> &)>   reductions;
+};
+
+// options: sets of (bit, variant) with at most `maxbits` bits
+static Space options_space(unsigned maxbits)
+{
+  static std::vector<OptVariant> V = option_variants();
+  auto                           sets = std::make_shared<std::vector<std::vector<int>>>();
+  sets->push_back({ -1 }); // options == NULL (ares_init())
+  sets->push_back({});     // empty mask
+  // breadth order: all singles, then all pairs, then all triples (so small sets come first)
+  for (unsigned sz = 1; sz <= maxbits; sz++) {
+    std::function<void(std::vector<int> &, size_t)> r2 = [&](std::vector<int> &cur, size_t from) {
+      if (cur.size() == sz) {
+        sets->push_back(cur);
+        return;
+      }
+      for (size_t i = from; i < V.size(); i++) {
+        bool clash = false;
+        auto grp   = [](int bit) { return bit == ARES_OPT_TIMEOUT ? ARES_OPT_TIMEOUTMS : bit; }; // one struct field, two spellings
+        for (int j : cur) clash = clash || grp(V[(size_t)j].bit) == grp(V[i].bit);
+        if (clash) continue;
+        cur.push_back((int)i);
+        r2(cur, i + 1);
+        cur.pop_back();
+      }
+    };
+    std::vector<int> cur;
+    r2(cur, 0);
+  }
+  Space sp;
+  sp.fam   = "options";
+  sp.total = sets->size() * 9;
+  sp.bound = "options: ares_init() and every set of <= " + std::to_string(maxbits) + " distinct option bits out of 23 (ARES_OPT_EVENT_THREAD excluded) with " + std::to_string(V.size()) +
+             " boundary values in total (" + std::to_string(sets->size()) + " option sets) x 3 system configurations x 3 reinit targets";
+  auto mk = [](const std::vector<int> &set, int sys, int re) {
+    Scenario sc;
+    sc.sys           = sys;
+    sc.re            = re;
+    std::vector<int> s = set;
+    sc.build         = [s](User &u) {
+      if (s.size() == 1 && s[0] == -1) {
+        u.options_null = true;
+        u.desc         = "options=NULL";
+        return;
+      }
+      // ARES_OPT_TIMEOUT before ARES_OPT_TIMEOUTMS so that the shared field ends up as the library reads it
+      for (int i : s)
+        if (V[(size_t)i].bit == ARES_OPT_TIMEOUT) V[(size_t)i].apply(u);
+      for (int i : s)
+        if (V[(size_t)i].bit != ARES_OPT_TIMEOUT) V[(size_t)i].apply(u);
+      for (int i : s) u.desc += (u.desc.empty() ? "" : " + ") + std::string(V[(size_t)i].name);
+      if (s.empty()) u.desc = "empty mask";
+    };
+    return sc;
+  };
+  sp.get  = [sets, mk](unsigned long long idx) { return mk((*sets)[(size_t)(idx / 9)], (int)(idx % 9) / 3, (int)(idx % 3)); };
+  sp.json = [sets](unsigned long long idx) { return "\"opts\":" + jarr((*sets)[(size_t)(idx / 9)]) + ",\"sys\":" + std::to_string((idx % 9) / 3) + ",\"re\":" + std::to_string(idx % 3); };
+  // parts = [sys, re, option variants...]
+  sp.parts = [sets](unsigned long long idx) {
+    std::vector<int> p = { (int)(idx % 9) / 3, (int)(idx % 3) };
+    for (int v : (*sets)[(size_t)(idx / 9)]) p.push_back(v);
+    return p;
+  };
+  sp.from_parts = [mk](const std::vector<int> &p) { return mk(std::vector<int>(p.begin() + 2, p.end()), p[0], p[1]); };
+  sp.parts_json = [](const std::vector<int> &p) { return "\"opts\":" + jarr(std::vector<int>(p.begin() + 2, p.end())) + ",\"sys\":" + std::to_string(p[0]) + ",\"re\":" + std::to_string(p[1]); };
+  sp.reductions = [](const std::vector<int> &p) {
+    std::vector<std::vector<int>> out;
+    if (p.size() == 3 && p[2] == -1) return out; // options == NULL
+    for (size_t i = 2; i < p.size(); i++) {
+      std::vector<int> q = p;
+      q.erase(q.begin() + (long)i);
+      out.push_back(q);
+    }
+    return out;
+  };
+  return sp;
+}
+static Scenario options_scenario_explicit(const std::vector<int> &set, int sys, int re)
+{
+  static std::vector<OptVariant> V = option_variants();
+  Scenario                       sc;
+  sc.sys             = sys;
+  sc.re              = re;
+  std::vector<int> s = set;
+  sc.build           = [s](User &u) {
+    if (s.size() == 1 && s[0] == -1) {
+      u.options_null = true;
+      u.desc         = "options=NULL";
+      return;
+    }
+    for (int i : s)
+      if (V[(size_t)i].bit == ARES_OPT_TIMEOUT) V[(size_t)i].apply(u);
+    for (int i : s)
+      if (V[(size_t)i].bit != ARES_OPT_TIMEOUT) V[(size_t)i].apply(u);
+    for (int i : s) u.desc += (u.desc.empty() ? "" : " + ") + std::string(V[(size_t)i].name);
+    if (s.empty()) u.desc = "empty mask";
+  };
+  return sc;
+}
+
+// servers: lists of 1..3 servers, each {v4, v6, link-local} x {default, equal, differing ports}, through 4 setters, x 4 channel port options
+struct SrvCase {
+  std::vector<int> kinds; // per server: addr kind * 3 + port kind
+  int              setter = 0, chan = 0, re = 1;
+  bool             dupaddr = false; // second server repeats the first address
+};
+static Srv make_srv(int pos, int kind, bool dupaddr)
+{
+  int ak = kind / 3, pk = kind % 3;
+  int p  = dupaddr && pos == 1 ? 0 : pos;
+  Srv s;
+  if (ak == 0) s = v4(("10.16." + std::to_string(p + 1) + ".1").c_str());
+  else if (ak == 1) s = v6(("2001:db8:16::" + std::to_string(p + 1)).c_str());
+  else {
+    s       = v6(("fe80::16:" + std::to_string(p + 1)).c_str());
+    s.iface = "eth0";
+    s.scope = 2;
+  }
+  if (pk == 1) s.udp = s.tcp = 5353;
+  if (pk == 2) {
+    s.udp = 5353;
+    s.tcp = 5354;
+  }
+  return s;
+}
+static Scenario servers_scenario(const SrvCase &c)
+{
+  Scenario sc;
+  sc.sys    = 1;
+  sc.re     = c.re;
+  SrvCase k = c;
+  bool    expr = true;
+  for (size_t i = 0; i < c.kinds.size(); i++)
+    if (c.kinds[i] / 3 != 0 || (c.setter != 0 && c.kinds[i] % 3 != 0)) expr = false;
+  sc.servers_expressible = expr;
+  sc.build               = [k](User &u) {
+    static const char *sn[] = { "ares_set_servers", "ares_set_servers_ports", "ares_set_servers_csv", "ares_set_servers_ports_csv" };
+    if (k.chan & 1) {
+      u.mask |= ARES_OPT_UDP_PORT;
+      u.o.udp_port        = 5300;
+      u.okmask |= ARES_OPT_UDP_PORT;
+      u.other["udp_port"] = "5300";
+    }
+    if (k.chan & 2) {
+      u.mask |= ARES_OPT_TCP_PORT;
+      u.o.tcp_port        = 5301;
+      u.okmask |= ARES_OPT_TCP_PORT;
+      u.other["tcp_port"] = "5301";
+    }
+    u.desc = std::string(sn[k.setter]) + "(";
+    std::string csv;
+    for (size_t i = 0; i < k.kinds.size(); i++) {
+      Srv s = make_srv((int)i, k.kinds[i], k.dupaddr);
+      // what the setter can carry
+      if (k.setter == 0) s.udp = s.tcp = 0;
+      if (k.setter <= 1) {
+        s.iface.clear();
+        s.scope = 0;
+      }
+      u.srv.push_back(s);
+      // csv text in the documented nameserver / URI formats, ports only when given
+      std::string it;
+      if (s.udp != s.tcp) it = "dns://" + (s.v6 ? "[" + s.addr + (s.iface.empty() ? "" : "%" + s.iface) + "]" : s.addr) + ":" + std::to_string(s.udp) + "?tcpport=" + std::to_string(s.tcp);
+      else {
+        it = s.v6 ? "[" + s.addr + "]" : s.addr;
+        if (s.udp) it += ":" + std::to_string(s.udp);
+        if (!s.iface.empty()) it += "%" + s.iface;
+      }
+      csv += (csv.empty() ? "" : ",") + it;
+    }
+    u.desc += csv + ")" + (k.chan ? " chan_ports=" + std::to_string(k.chan) : "");
+    u.s_servers = true;
+    u.set_csv   = true;
+    u.csv       = csv;
+    u.setter    = k.setter;
+    for (auto &x : u.srv)
+      if (x.addr.compare(0, 4, "fe80") == 0 && x.iface.empty()) u.ll_without_iface = true;
+  };
+  return sc;
+}
+static Space servers_space()
+{
+  auto cases = std::make_shared<std::vector<SrvCase>>();
+  for (int chan = 0; chan < 4; chan++)
+    for (int setter = 0; setter < 4; setter++)
+      for (int n = 1; n <= 3; n++) {
+        int tot = 1;
+        for (int i = 0; i < n; i++) tot *= 9;
+        for (int x = 0; x < tot; x++) {
+          SrvCase c;
+          int     y = x;
+          bool    skip = false;
+          for (int i = 0; i < n; i++) {
+            c.kinds.push_back(y % 9);
+            y /= 9;
+          }
+          // ares_set_servers carries no ports: only the default-port combinations are distinct inputs
+          for (int kd : c.kinds)
+            if (setter == 0 && kd % 3 != 0) skip = true;
+          if (skip) continue;
+          c.setter = setter;
+          c.chan   = chan;
+          c.re     = 1;
+          cases->push_back(c);
+          if (n == 2) { // the second entry repeats the first address (same or other ports)
+            c.dupaddr = true;
+            if (c.kinds[0] / 3 == c.kinds[1] / 3) cases->push_back(c);
+          }
+        }
+      }
+  Space sp;
+  sp.fam   = "servers";
+  sp.total = cases->size();
+  sp.bound = "servers: lists of 1..3 servers over {IPv4, IPv6, link-local IPv6%eth0} x {default ports, udp=tcp=5353, udp 5353 / tcp 5354}, plus 2-entry lists repeating an address, through "
+             "ares_set_servers / ares_set_servers_ports / ares_set_servers_csv / ares_set_servers_ports_csv x channel-wide {none, udp 5300, tcp 5301, both} port options; "
+             "system configuration with other servers; reinit to a configuration with yet other servers (" + std::to_string(cases->size()) + " cases)";
+  sp.get  = [cases](unsigned long long idx) { return servers_scenario((*cases)[(size_t)idx]); };
+  sp.json = [cases](unsigned long long idx) {
+    const SrvCase &c = (*cases)[(size_t)idx];
+    return "\"kinds\":" + jarr(c.kinds) + ",\"setter\":" + std::to_string(c.setter) + ",\"chan\":" + std::to_string(c.chan) + ",\"dupaddr\":" + std::to_string(c.dupaddr ? 1 : 0);
+  };
+  return sp;
+}
+
+// userwins: every subset of the overridable settings
+static const int UW_RADIX[] = { 3, 3, 3, 2, 2, 2, 2, 3, 4, 2, 3 }; // servers, sortlist, domains, lookups, ndots, tries, timeout, rotate, flags, sys(2), re(3)
+static Scenario  userwins_scenario(const std::vector<int> &d)
+{
+  Scenario sc;
+  sc.sys             = 1 + d[9];
+  sc.re              = d[10];
+  std::vector<int> k = d;
+  sc.servers_expressible = k[0] != 2;
+  sc.build               = [k](User &u) {
+    auto add = [&](const std::string &s) { u.desc += (u.desc.empty() ? "" : " + ") + s; };
+    if (k[0] == 1) {
+      u.mask |= ARES_OPT_SERVERS;
+      struct in_addr ia;
+      inet_pton(AF_INET, "10.16.0.1", &ia);
+      u.servers.push_back(ia);
+      u.srv       = { v4("10.16.0.1") };
+      u.s_servers = true;
+      u.okmask |= ARES_OPT_SERVERS;
+      add("servers(option)");
+    } else if (k[0] == 2) {
+      u.set_csv   = true;
+      u.csv       = "10.16.0.2:5353,[2001:db8:16::2]:53";
+      Srv a       = v4("10.16.0.2");
+      a.udp = a.tcp = 5353;
+      u.srv       = { a, v6("2001:db8:16::2") };
+      u.s_servers = true;
+      add("servers(ares_set_servers_ports_csv)");
+    }
+    if (k[1] == 1) {
+      int n = 0;
+      u.mask |= ARES_OPT_SORTLIST;
+      u.sortlist     = make_sortlist("10.16.0.0/16", &n);
+      u.o.sortlist   = u.sortlist;
+      u.o.nsort      = n;
+      u.s_sortlist   = true;
+      u.sortlist_txt = "10.16.0.0/16";
+      u.okmask |= ARES_OPT_SORTLIST;
+      add("sortlist(option)");
+    } else if (k[1] == 2) {
+      u.set_sortlist = true;
+      u.sortlist_str = "10.17.0.0/255.255.0.0";
+      u.s_sortlist   = true;
+      u.sortlist_txt = "10.17.0.0/16";
+      add("sortlist(ares_set_sortlist)");
+    }
+    if (k[2]) {
+      u.mask |= ARES_OPT_DOMAINS;
+      if (k[2] == 1) u.domains = u.dom = { "user1.example" };
+      u.s_domains = true;
+      u.okmask |= ARES_OPT_DOMAINS;
+      add(k[2] == 1 ? "domains=1" : "domains=0");
+    }
+    if (k[3]) {
+      u.mask |= ARES_OPT_LOOKUPS;
+      u.lookups = u.lookups_txt = "bf";
+      u.s_lookups               = true;
+      u.okmask |= ARES_OPT_LOOKUPS;
+      add("lookups=bf");
+    }
+    if (k[4]) {
+      u.mask |= ARES_OPT_NDOTS;
+      u.o.ndots = 2;
+      u.s_ndots = true;
+      u.ndots   = "2";
+      u.okmask |= ARES_OPT_NDOTS;
+      add("ndots=2");
+    }
+    if (k[5]) {
+      u.mask |= ARES_OPT_TRIES;
+      u.o.tries = 5;
+      u.s_tries = true;
+      u.tries   = "5";
+      u.okmask |= ARES_OPT_TRIES;
+      add("tries=5");
+    }
+    if (k[6]) {
+      u.mask |= ARES_OPT_TIMEOUTMS;
+      u.o.timeout  = 1500;
+      u.s_timeout  = true;
+      u.timeout_ok = { "1500" };
+      u.okmask |= ARES_OPT_TIMEOUTMS;
+      add("timeoutms=1500");
+    }
+    if (k[7]) {
+      u.mask |= k[7] == 1 ? ARES_OPT_ROTATE : ARES_OPT_NOROTATE;
+      u.okmask |= k[7] == 1 ? ARES_OPT_ROTATE : ARES_OPT_NOROTATE;
+      u.rotate = k[7] == 1 ? 1 : 0;
+      add(k[7] == 1 ? "rotate" : "norotate");
+    }
+    if (k[8]) {
+      static const unsigned fl[] = { 0, ARES_FLAG_EDNS, ARES_FLAG_EDNS | ARES_FLAG_USEVC, 0 };
+      u.mask |= ARES_OPT_FLAGS;
+      u.o.flags = (int)fl[k[8]];
+      u.s_flags = true;
+      u.flags   = fl[k[8]];
+      u.okmask |= ARES_OPT_FLAGS;
+      add("flags=" + hexs(fl[k[8]]));
+    }
+    if (u.desc.empty()) u.desc = "nothing supplied";
+  };
+  return sc;
+}
+static Space userwins_space()
+{
+  Space sp;
+  sp.fam   = "userwins";
+  sp.total = 1;
+  for (int r : UW_RADIX) sp.total *= (unsigned long long)r;
+  sp.bound = "userwins: every combination of {servers: none/option/csv setter} x {sortlist: none/option/ares_set_sortlist} x {domains: none/one/empty list} x {lookups} x {ndots} x {tries} x "
+             "{timeout} x {none/rotate/norotate} x {flags: none/EDNS/EDNS|USEVC/0} x 2 system configurations that set every overridable field x 3 reinit targets (" +
+             std::to_string(sp.total) + " cases)";
+  auto dec = [](unsigned long long idx) {
+    std::vector<int> d;
+    for (int r : UW_RADIX) {
+      d.push_back((int)(idx % (unsigned long long)r));
+      idx /= (unsigned long long)r;
+    }
+    return d;
+  };
+  sp.get  = [dec](unsigned long long idx) { return userwins_scenario(dec(idx)); };
+  sp.json = [dec](unsigned long long idx) { return "\"digits\":" + jarr(dec(idx)); };
+  sp.parts      = dec;
+  sp.from_parts = [](const std::vector<int> &p) { return userwins_scenario(p); };
+  sp.parts_json = [](const std::vector<int> &p) { return "\"digits\":" + jarr(p); };
+  sp.reductions = [](const std::vector<int> &p) {
+    std::vector<std::vector<int>> out;
+    for (size_t i = 0; i < 9; i++)
+      if (p[i]) {
+        std::vector<int> q = p;
+        q[i]               = 0; // setting not supplied
+        out.push_back(q);
+      }
+    return out;
+  };
+  return sp;
+}
+
+bool is_c16_family(const std::string &f) { return f == "options" || f == "servers" || f == "userwins"; }
+
+int run_c16(Ctx &cx)
+{
+  const std::string &fam = cx.args.family;
+  Space              sp;
+  if (fam == "options") sp = options_space((unsigned)cx.args.geti("bits", cx.args.tier == "thorough" ? 3 : 2));
+  else if (fam == "servers") sp = servers_space();
+  else sp = userwins_space();
+  cx.rep.family = fam;
+  cx.rep.bound  = sp.bound;
+
+  auto describe = [&](const Scenario &sc) {
+    User u;
+    sc.build(u);
+    static std::vector<Sys> sysv = sys_variants();
+    return u.desc + " | system configuration: " + sysv[(size_t)sc.sys].name + " | reinit: " + (sc.re == 0 ? "unchanged" : sc.re == 1 ? "changed" : "removed");
+  };
+  std::set<std::string> reported;
+  auto                  one = [&](unsigned long long idx, const Scenario &sc, const std::string &enc) {
+    std::string cj = "{\"index\":" + std::to_string(idx) + ",\"family\":" + vf::jstr(fam) + "," + enc + ",\"desc\":" + vf::jstr(describe(sc)) + "}";
+    vf::set_current_case(cj, "C16:crash:" + fam);
+    vf::watchdog(30);
+    std::string          outcome;
+    std::vector<Finding> fs = run_scenario(sc, cx, fam, &outcome, cx.replay);
+    vf::watchdog(0);
+    cx.rep.transitions++;
+    cx.ncases++;
+    cx.rep.outcome(outcome + " findings=" + std::to_string(fs.size()));
+    for (auto &f : fs) {
+      if (!cx.replay && reported.count(f.key)) continue;
+      reported.insert(f.key);
+      std::string desc = f.desc + " | scenario: " + describe(sc), rj = cj;
+      if (!cx.replay && sp.parts && idx != ~0ULL) {
+        // shrink: drop supplied settings one at a time while the same finding stays
+        std::vector<int> cur = sp.parts(idx);
+        auto             w = cx.rep.witnesses;
+        auto             c = cx.rep.counters;
+        bool             changed = true;
+        while (changed) {
+          changed = false;
+          for (auto &cand : sp.reductions(cur)) {
+            std::string          o2;
+            Scenario             s2  = sp.from_parts(cand);
+            std::vector<Finding> fs2 = run_scenario(s2, cx, fam, &o2, false);
+            for (auto &g : fs2)
+              if (g.key == f.key) {
+                cur     = cand;
+                desc    = g.desc + " | minimal scenario: " + describe(s2);
+                rj      = "{\"index\":" + std::to_string(idx) + ",\"family\":" + vf::jstr(fam) + "," + sp.parts_json(cand) + ",\"desc\":" + vf::jstr(describe(s2)) + "}";
+                changed = true;
+                break;
+              }
+            if (changed) break;
+          }
+        }
+        cx.rep.witnesses = w;
+        cx.rep.counters  = c;
+        vf::set_current_case(cj, "C16:crash:" + fam);
+      }
+      cx.violation(f.key, desc, rj);
+    }
+  };
+
+  if (cx.replay) {
+    JVal j;
+    if (!jparse(read_file(cx.args.replay), &j)) {
+      fprintf(stderr, "cannot parse replay file\n");
+      return 3;
+    }
+    Scenario sc;
+    if (fam == "options") {
+      std::vector<int> s;
+      for (long long v : j.ai["opts"]) s.push_back((int)v);
+      sc = options_scenario_explicit(s, (int)j.i["sys"], (int)j.i["re"]);
+    } else if (fam == "servers") {
+      SrvCase c;
+      for (long long v : j.ai["kinds"]) c.kinds.push_back((int)v);
+      c.setter  = (int)j.i["setter"];
+      c.chan    = (int)j.i["chan"];
+      c.dupaddr = j.i["dupaddr"] != 0;
+      sc        = servers_scenario(c);
+    } else {
+      std::vector<int> d;
+      for (long long v : j.ai["digits"]) d.push_back((int)v);
+      if (d.size() != sizeof UW_RADIX / sizeof *UW_RADIX) {
+        fprintf(stderr, "bad digits\n");
+        return 3;
+      }
+      sc = userwins_scenario(d);
+    }
+    printf("scenario: %s\n", describe(sc).c_str());
+    one(~0ULL, sc, "\"replayed\":1");
+    printf(cx.failed ? "REPRODUCED\n" : "HELD\n");
+    return cx.failed ? 1 : 0;
+  }
+
+  cx.rep.counters["cases_total"] = sp.total;
+  for (unsigned long long idx = (unsigned long long)cx.args.resume; idx < sp.total; idx++) {
+    if (idx % (unsigned long long)cx.args.nshards != (unsigned long long)cx.args.shard) continue;
+    if ((cx.ncases & 63) == 0 && cx.deadline_hit()) {
+      cx.rep.exhaustive             = false;
+      cx.rep.counters["stopped_at"] = idx;
+      break;
+    }
+    one(idx, sp.get(idx), sp.json(idx));
+  }
+  return 0;
+}
+
+} // namespace exe
